@@ -165,7 +165,7 @@ void DNS::rcode(uint8_t new_rcode) {
 }
 
 bool DNS::contains_dname(uint16_t type) {
-    return type == MX || type == CNAME || type == PTR || type == NS;
+    return type == MX || type == CNAME || type == PTR || type == NS || type == DNAM;
 }
 
 void DNS::add_query(const query& query) {
